@@ -229,3 +229,25 @@ def xc_early_return(a, b):
     if for_x == b:
         return 'same' == 'same'
     return for_x != b and b != a
+
+
+def xc_dict_pop(a, b):
+    d = {}
+    d[a] = 1
+    d[b] = 2
+    v = d.pop(a)
+    return v, len(d), a in d, d.pop(a, -1)
+
+
+def xc_dict_setdefault(a, b):
+    d = {}
+    x = d.setdefault(a, 5)
+    y = d.setdefault(b, 6)
+    return x, y, len(d)
+
+
+def xc_list_index_pop(a, b):
+    xs = [a, b, a]
+    i = xs.index(b)
+    last = xs.pop()
+    return i, last, len(xs)
